@@ -308,7 +308,7 @@ pub fn run(run: &Run) {
     run.section_exhaustive("typestate-exhaustive", true, &format!("all sequences of length 1..={depth} over the 8-symbol alphabet x 4 typestates x 3 paths"));
     prop_search(
         run,
-        Search { check: "typestate", cases: run.tier.pick(60_000, 1_500_000), workers, max_shrink_iters: 4000 },
+        Search { check: "typestate", cases: run.tier.pick(600_000, 6_000_000), workers, max_shrink_iters: 4000 },
         || (0u8..4, proptest::collection::vec(sym_strategy(), 1..12)).prop_map(|(ts, syms)| SeqCase { ts, syms }),
         |c| match vcore::catch(|| test_seq(model::ALL_TS[c.ts as usize % 4], &c.syms)).unwrap_or_else(|p| Err(("C12:panic".into(), p))) {
             Ok(nt) => Outcome::pass(nt),
